@@ -177,12 +177,30 @@ pub fn standard_roots(w: &World, s0: &Store, with_forged: bool) -> Vec<(String, 
             Action::Deposit { u: 3, b: 1, amt: dollar_amount(w, &r0, 1, 100_000), up_to_limit: None },
             Action::Borrow { u: 3, b: 0, amt: dollar_amount(w, &r0, 0, 20_000) },
             Action::Advance { dt: 86_400 * 100 },
-            Action::Deposit { u: 1, b: 0, amt: 1, up_to_limit: None },
-            Action::Withdraw { u: 1, b: 0, amt: 1, all: false },
         ],
         "R6",
     );
-    roots.push(("R6".to_string(), mk(r6, false)));
+    // deposit a little and take out exactly what was credited (transfer-fee mints credit less)
+    let mut built = false;
+    for amt in [1u64, 20, 1000] {
+        let mut t = r6.clone();
+        if !act::apply(w, &mut t, &Action::Deposit { u: 1, b: 0, amt, up_to_limit: None }).committed {
+            continue;
+        }
+        let credited = {
+            let a = account(&t, &w.users[1].account);
+            let bk = bank(&t, &w.banks[0].key);
+            a.lending_account.balances.iter().find(|x| x.active != 0 && x.bank_pk == w.banks[0].key).map(|bal| (I80F48::from(bal.asset_shares) * I80F48::from(bk.asset_share_value)).to_num::<u64>()).unwrap_or(0)
+        };
+        if credited >= 1 && act::apply(w, &mut t, &Action::Withdraw { u: 1, b: 0, amt: credited, all: false }).committed {
+            r6 = t;
+            built = true;
+            break;
+        }
+    }
+    if built {
+        roots.push(("R6".to_string(), mk(r6, false)));
+    }
 
     // R7: like R1, but the group's risk admin is the borrower u1 itself (the risk admin is an ordinary
     // key and may hold positions): whatever privileges that role has must not leak into plain banks
@@ -238,10 +256,28 @@ pub fn tokenless_roots(w: &World, s0: &Store) -> Vec<(String, HState)> {
     roots.push(("RTC".to_string(), mk(rtc)));
     // RTD: only the seeder lends bank 0; u1 holds an empty but active balance there; bank complete
     let mut rtd = get("R0");
-    do_all(w, &mut rtd, &[Action::Deposit { u: 1, b: 0, amt: 5, up_to_limit: None }, Action::Withdraw { u: 1, b: 0, amt: 5, all: false }], "RTD");
-    allow(&mut rtd, 0);
-    do_all(w, &mut rtd, &[Action::ForceTokenlessComplete { b: 0 }], "RTD complete");
-    roots.push(("RTD".to_string(), mk(rtd)));
+    let mut built = false;
+    for amt in [5u64, 50, 5000] {
+        let mut t = rtd.clone();
+        if !act::apply(w, &mut t, &Action::Deposit { u: 1, b: 0, amt, up_to_limit: None }).committed {
+            continue;
+        }
+        let credited = {
+            let a = account(&t, &w.users[1].account);
+            let bk = bank(&t, &w.banks[0].key);
+            a.lending_account.balances.iter().find(|x| x.active != 0 && x.bank_pk == w.banks[0].key).map(|bal| (I80F48::from(bal.asset_shares) * I80F48::from(bk.asset_share_value)).to_num::<u64>()).unwrap_or(0)
+        };
+        if credited >= 1 && act::apply(w, &mut t, &Action::Withdraw { u: 1, b: 0, amt: credited, all: false }).committed {
+            rtd = t;
+            built = true;
+            break;
+        }
+    }
+    if built {
+        allow(&mut rtd, 0);
+        do_all(w, &mut rtd, &[Action::ForceTokenlessComplete { b: 0 }], "RTD complete");
+        roots.push(("RTD".to_string(), mk(rtd)));
+    }
     roots
 }
 
